@@ -28,7 +28,7 @@ CHECKS = {
   "(all slice/index expressions incl. f[0]) and its line evaluation goes through matchTags' contract; its block/line structure is compared with go/build/constraint by a bounded stand-in.",
   "assumed: extern contracts for strings.Index/Split/Fields/HasPrefix, bytes.IndexByte/TrimSpace/HasPrefix, unicode.IsLetter/IsDigit (uninterpreted), UTF-8 decoding (uninterpreted runeAt/runeW); "
   "nil tag maps are outside the contracts (requires tags != nil); MatchFile's specification is close to the code (spec-near) except for the OS-selection rule; "
-  "bounded: ShouldBuild vs go/build/constraint over blocks of up to 4 (quick) / 5 (thorough) lines from an 8-line vocabulary and 4 tag sets",
+  "bounded: ShouldBuild vs go/build/constraint over blocks of up to 4 (quick) / 6 (thorough) lines from an 8-line vocabulary and 4 tag sets",
   "contract-based deductive verification (VCs over go/ssa incl. a recursive spec function and a rune-iteration invariant, z3/cvc5) plus a labelled bounded stand-in for ShouldBuild's block structure"),
  "C06": ("5 C06",
   "Per-call contracts over a ghost lock state fdMode[descriptor]: filelock.lock returns nil only after a successful flock with the requested type (EINTR retried, failures leave the state unchanged); "
@@ -127,13 +127,17 @@ CHECKS = {
   "and call-site obligations that exec and execBackground start the child with Dir = the script's directory and Env = the script's list plus PWD. "
   "The splitting function itself (words, '' , #, no re-splitting / re-expansion of values) is compared with a reference tokenizer written from the property text by a bounded stand-in.",
   "assumed: os.Expand applies the mapping to $NAME / ${NAME} references (its grammar is not modelled), regexp.QuoteMeta matches exactly its argument, os/exec uses the last duplicate in Env; waitOrStop, pty helpers and execpath.Look are trusted (pure); "
-  "the pointwise agreement of the env list with envMap across all assignments (lastVal) is not stated as an invariant, only the per-Setenv step; bounded: tokenizer vs reference over lines of up to 5 (quick) / 6 (thorough) tokens from an 11-token vocabulary (incl. a two-byte UTF-8 letter whose second byte is 0xA0) with two variables whose values contain blanks, quotes and a $ reference",
+  "the pointwise agreement of the env list with envMap across all assignments (lastVal) is not stated as an invariant, only the per-Setenv step; bounded: tokenizer vs reference over lines of up to 5 (quick) / 7 (thorough) tokens from an 11-token vocabulary (incl. a two-byte UTF-8 letter whose second byte is 0xA0) with two variables whose values contain blanks, quotes and a $ reference",
   "contract-based deductive verification (safety, termination and call-site obligations over go/ssa; z3/cvc5) plus a labelled bounded stand-in for the tokenizer's functional behaviour"),
  "C03": ("5 C03",
-  "Contracts on txtar.isMarker (and, as they are added, findFileMarker/fixNL/Parse) are discharged by SMT for every byte string: "
-  "every index/slice expression is in bounds (Parse cannot panic there) and the results equal the marker vocabulary written from the format text.",
-  "assumed: extern contracts for bytes.HasPrefix/HasSuffix/IndexByte/Index and strings.TrimSpace; mathematical integers; govc's SSA->VC translation; z3/cvc5",
-  "contract-based deductive verification: weakest-precondition style VCs over go/ssa, discharged by z3 4.8/5.1 and cvc5"),
+  "Contracts on txtar.isMarker, fixNL, findFileMarker and Parse, discharged for every byte string: every index/slice expression is in bounds (Parse cannot panic); isMarker's result equals the marker vocabulary written from the format text (a line '-- name --' with a non-blank name, LF or CRLF ended or at end of input) and its remainder starts after that line; "
+  "findFileMarker returns the first marker line that starts at a line start (nothing before it is a marker), the text before it as a prefix of the input, its trimmed name and the rest after it, and without a marker the newline-normalised input; its scan terminates; "
+  "Parse terminates (each round consumes at least the marker line), returns a fresh archive, and every file it returns has a non-empty name. "
+  "The round-trip clauses (Parse of Format of a normalised archive gives it back; Format of Parse normalises only by adding missing final newlines; agreement with golang.org/x/tools/txtar on CR-free input; CRLF == LF marker recognition) are checked by a BOUNDED stand-in only: "
+  "exhaustive over concatenations of up to 5 (quick) / 7 (thorough) marker-relevant tokens.",
+  "assumed: extern contracts for bytes.HasPrefix/HasSuffix/IndexByte/Index and strings.TrimSpace; mathematical integers; Format is golang.org/x/tools/txtar's (outside the module: no contract, exercised only through the stand-in); "
+  "that every parsed body is free of marker lines is proved for findFileMarker's 'before' relative to the input, not restated for the body as a slice of its own",
+  "contract-based deductive verification: VCs over go/ssa with loop invariants and termination measures, discharged by z3 4.8/5.1 and cvc5; plus a labelled bounded stand-in for the round trip"),
  "C20": ("5 C20",
   "Contracts on the request handler, the zip-building closure and allHex over a ghost response (status set, number of body writes) and ghost zip-entry counters: "
   "a .info / .mod request answers with exactly one write, of the data of the first stored file named .info / .mod, and nothing else; the zip closure creates an entry only for stored files whose name does not start with a dot, "
